@@ -6,7 +6,7 @@ for P in "$@"; do
   for d in seeded/${P}_*; do
     [ -f "$d/patch.diff" ] || continue
     prop=$(python3 -c "import json;print(json.load(open('$d/meta.json')).get('breaks_property') or '$P')" 2>/dev/null || echo $P)
-    r=$(tools/mutcheck.sh "/verif/$d" "$prop" quick --notests 2>&1 | grep "check exit" )
+    r=$(tools/mutcheck.sh "/verif/$d" "$prop" quick --notests 2>&1 | grep "check exit" | head -1)
     echo "$(basename $d) [$prop] $r"
   done
 done
